@@ -42,6 +42,7 @@ DEFAULT_OPTS = {
     "retype": True,
     "retype_to_dir": True,
     "rename_full_dirs": True,
+    "neg_half_tz": True,
     "swap": True,
     "odd_names": False,
     "big": True,
@@ -341,7 +342,7 @@ def gen_spec(rng, mh, rid, parents, ts, opts, nchanges=None, merge_tree=None):
         "parents": [p for p in parents if p],
         "actions": actions,
         "ts": ts,
-        "tz": rng.choice(TIMEZONES) if o["tz"] else 0,
+        "tz": rng.choice([z for z in TIMEZONES if o["neg_half_tz"] or z != -34200]) if o["tz"] else 0,
         "msg": _message(rng, rid, o),
         "committer": rng.choice(COMMITTERS) if o["committers"] else COMMITTERS[0],
     }
